@@ -242,7 +242,9 @@ func (t *Object) Resolve(field *Field, args map[string]interface{}) (result inte
 			result = &list
 		}
 	case interfacesStr:
-		result = t.Interfaces
+		// A list the library resolves itself. A bare []Type would be handed
+		// to the application's AnyResolver when one is set.
+		result = &typeList{list: t.Interfaces}
 	case possibleTypesStr, enumValuesStr, inputFieldsStr, ofTypeStr:
 		// nil result
 	}
